@@ -1,1 +1,167 @@
-pub fn x(){}
+//! Type-erased table entries for compiled `FORMAT` constants.
+//!
+//! Every function pointer is a monomorphisation of the *public* lexical-core API for one
+//! `(type, FORMAT)` pair; values are erased to bit patterns (`u64` for floats, two's complement
+//! `u128` for integers) so the checks can pick formats and types at run time.
+
+pub use lexical_core;
+use lexical_core::{
+    Error, FormattedSize, FromLexicalWithOptions, ParseFloatOptions as PFO, ParseIntegerOptions as PIO, Result, ToLexicalWithOptions,
+    WriteFloatOptions as WFO, WriteIntegerOptions as WIO,
+};
+
+pub type PF = fn(&[u8], &PFO) -> Result<u64>;
+pub type PFP = fn(&[u8], &PFO) -> Result<(u64, usize)>;
+pub type PI = fn(&[u8], &PIO) -> Result<u128>;
+pub type PIP = fn(&[u8], &PIO) -> Result<(u128, usize)>;
+/// returns (offset of the returned slice from the buffer start, length of the returned slice)
+pub type WF = fn(u64, &mut [u8], &WFO) -> (usize, usize);
+pub type WI = fn(u128, &mut [u8], &WIO) -> (usize, usize);
+pub type BSF = fn(&WFO) -> usize;
+pub type BSI = fn(&WIO) -> usize;
+
+pub const INT_NAMES: [&str; 12] = ["u8", "u16", "u32", "u64", "u128", "usize", "i8", "i16", "i32", "i64", "i128", "isize"];
+pub const INT_BITS: [u32; 12] = [8, 16, 32, 64, 128, usize::BITS, 8, 16, 32, 64, 128, usize::BITS];
+pub const INT_SIGNED: [bool; 12] = [false, false, false, false, false, false, true, true, true, true, true, true];
+pub const FLOAT_NAMES: [&str; 2] = ["f32", "f64"];
+
+pub trait FloatE: Copy + FromLexicalWithOptions<Options = PFO> + ToLexicalWithOptions<Options = WFO> + FormattedSize {
+    const IDX: usize;
+    fn bits(self) -> u64;
+    fn from_bits_(b: u64) -> Self;
+}
+impl FloatE for f32 {
+    const IDX: usize = 0;
+    fn bits(self) -> u64 {
+        self.to_bits() as u64
+    }
+    fn from_bits_(b: u64) -> f32 {
+        f32::from_bits(b as u32)
+    }
+}
+impl FloatE for f64 {
+    const IDX: usize = 1;
+    fn bits(self) -> u64 {
+        self.to_bits()
+    }
+    fn from_bits_(b: u64) -> f64 {
+        f64::from_bits(b)
+    }
+}
+
+pub trait IntE: Copy + FromLexicalWithOptions<Options = PIO> + ToLexicalWithOptions<Options = WIO> + FormattedSize {
+    const IDX: usize;
+    fn erase(self) -> u128;
+    fn restore(x: u128) -> Self;
+}
+macro_rules! int_e {
+    ($($t:ident $i:expr, $via:ident;)*) => {$(
+        impl IntE for $t {
+            const IDX: usize = $i;
+            fn erase(self) -> u128 { self as $via as u128 }
+            fn restore(x: u128) -> Self { x as $t }
+        }
+    )*};
+}
+int_e! { u8 0, u128; u16 1, u128; u32 2, u128; u64 3, u128; u128 4, u128; usize 5, u128; i8 6, i128; i16 7, i128; i32 8, i128; i64 9, i128; i128 10, i128; isize 11, i128; }
+
+fn pf_c<T: FloatE, const F: u128>(b: &[u8], o: &PFO) -> Result<u64> {
+    lexical_core::parse_with_options::<T, F>(b, o).map(|v| v.bits())
+}
+fn pf_p<T: FloatE, const F: u128>(b: &[u8], o: &PFO) -> Result<(u64, usize)> {
+    lexical_core::parse_partial_with_options::<T, F>(b, o).map(|(v, n)| (v.bits(), n))
+}
+fn pi_c<T: IntE, const F: u128>(b: &[u8], o: &PIO) -> Result<u128> {
+    lexical_core::parse_with_options::<T, F>(b, o).map(|v| v.erase())
+}
+fn pi_p<T: IntE, const F: u128>(b: &[u8], o: &PIO) -> Result<(u128, usize)> {
+    lexical_core::parse_partial_with_options::<T, F>(b, o).map(|(v, n)| (v.erase(), n))
+}
+fn wf_<T: FloatE, const F: u128>(bits: u64, buf: &mut [u8], o: &WFO) -> (usize, usize) {
+    let base = buf.as_ptr() as usize;
+    let out = lexical_core::write_with_options::<T, F>(T::from_bits_(bits), buf, o);
+    ((out.as_ptr() as usize).wrapping_sub(base), out.len())
+}
+fn wi_<T: IntE, const F: u128>(v: u128, buf: &mut [u8], o: &WIO) -> (usize, usize) {
+    let base = buf.as_ptr() as usize;
+    let out = lexical_core::write_with_options::<T, F>(T::restore(v), buf, o);
+    ((out.as_ptr() as usize).wrapping_sub(base), out.len())
+}
+fn bsf_<T: FloatE, const F: u128>(o: &WFO) -> usize {
+    o.buffer_size_const::<T, F>()
+}
+fn bsi_<T: IntE, const F: u128>(o: &WIO) -> usize {
+    o.buffer_size_const::<T, F>()
+}
+
+pub struct Entry {
+    pub name: &'static str,
+    pub group: &'static str,
+    pub packed: u128,
+    /// `format_is_valid::<F>()` as evaluated by lexical for this build configuration
+    pub is_valid: bool,
+    /// `format_error::<F>()`
+    pub error: Error,
+    pub pf: [Option<(PF, PFP)>; 2],
+    pub pi: [Option<(PI, PIP)>; 12],
+    pub wf: [Option<(WF, BSF)>; 2],
+    pub wi: [Option<(WI, BSI)>; 12],
+}
+
+impl Entry {
+    pub fn new<const F: u128>(name: &'static str, group: &'static str) -> Entry {
+        Entry {
+            name,
+            group,
+            packed: F,
+            is_valid: lexical_core::format_is_valid::<F>(),
+            error: lexical_core::format_error::<F>(),
+            pf: [None; 2],
+            pi: [None; 12],
+            wf: [None; 2],
+            wi: [None; 12],
+        }
+    }
+    pub fn pf<T: FloatE, const F: u128>(&mut self) {
+        self.pf[T::IDX] = Some((pf_c::<T, F>, pf_p::<T, F>));
+    }
+    pub fn pi<T: IntE, const F: u128>(&mut self) {
+        self.pi[T::IDX] = Some((pi_c::<T, F>, pi_p::<T, F>));
+    }
+    pub fn wf<T: FloatE, const F: u128>(&mut self) {
+        self.wf[T::IDX] = Some((wf_::<T, F>, bsf_::<T, F>));
+    }
+    pub fn wi<T: IntE, const F: u128>(&mut self) {
+        self.wi[T::IDX] = Some((wi_::<T, F>, bsi_::<T, F>));
+    }
+}
+
+/// (FORMATTED_SIZE_DECIMAL, FORMATTED_SIZE) per integer type index, as lexical defines them.
+pub fn int_formatted_size(idx: usize) -> (usize, usize) {
+    macro_rules! fs {
+        ($t:ty) => {
+            (<$t as FormattedSize>::FORMATTED_SIZE_DECIMAL, <$t as FormattedSize>::FORMATTED_SIZE)
+        };
+    }
+    match idx {
+        0 => fs!(u8),
+        1 => fs!(u16),
+        2 => fs!(u32),
+        3 => fs!(u64),
+        4 => fs!(u128),
+        5 => fs!(usize),
+        6 => fs!(i8),
+        7 => fs!(i16),
+        8 => fs!(i32),
+        9 => fs!(i64),
+        10 => fs!(i128),
+        _ => fs!(isize),
+    }
+}
+pub fn float_formatted_size(idx: usize) -> (usize, usize) {
+    if idx == 0 {
+        (<f32 as FormattedSize>::FORMATTED_SIZE_DECIMAL, <f32 as FormattedSize>::FORMATTED_SIZE)
+    } else {
+        (<f64 as FormattedSize>::FORMATTED_SIZE_DECIMAL, <f64 as FormattedSize>::FORMATTED_SIZE)
+    }
+}
